@@ -332,3 +332,12 @@ Proof. intros He Hs. cbn [on_event]. rewrite He. unfold is_awaiting. rewrite Hs.
 Lemma ready_answer_not_awaiting_xpub id stream session limit chstat s e :
   lookup id (xpubs s) = Some e -> e_status e <> Awaiting -> on_event (EvXPubReady id stream session limit chstat) s = (s, [], false).
 Proof. intros He Hs. cbn [on_event]. rewrite He. unfold is_awaiting. destruct (e_status e); [congruence| | |]; reflexivity. Qed.
+
+(* ---- the user's own close() on a publication handle: only the handle's flag ---- *)
+Lemma close_handle_spec k r s :
+  let s' := fst (do_close_handle k r s) in
+  (forall k', getm k' s' = getm k' s) /\ orphans s' = orphans s /\ next_corr s' = next_corr s /\ next_h s' = next_h s /\ closed s' = closed s /\
+  snd (fst (snd (do_close_handle k r s))) = [] /\ snd (snd (do_close_handle k r s)) = [] /\
+  (forall k2 r2 h, held k2 r2 h s -> held k2 r2 h s').
+Proof. cbn zeta. unfold do_close_handle. destruct k; try (repeat split; auto; fail);
+  (destruct (user_obj _ r s); cbn [fst snd]; repeat split; auto; intros k'; destruct k'; reflexivity). Qed.
